@@ -134,15 +134,20 @@ impl<P: Protocol> RemoteLink<P> {
             select! {
                 o = self.network.read() => {
                     let packet = o?;
-                    let len = {
+                    let (len, bad_frame) = {
                         let mut buffer = self.link_tx.buffer();
                         buffer.push_back(packet);
-                        self.network.readv(&mut buffer)?;
-                        buffer.len()
+                        let bad_frame = self.network.readv(&mut buffer).err();
+                        (buffer.len(), bad_frame)
                     };
 
                     trace!("Packets read from network, count = {}", len);
+                    // packets decoded in front of an undecodable frame were received:
+                    // the router sees them (e.g. a DISCONNECT) before the link fails
                     self.link_tx.notify().await?;
+                    if let Some(e) = bad_frame {
+                        return Err(e.into());
+                    }
                 }
                 // Receive from router when previous when state isn't in collision
                 // due to previously received data request
